@@ -554,6 +554,82 @@ def c13(ctx):
     ctx.cov["exhaustive"] = False
 
 
+# --------------------------------------------------------------------------- C09 / C10
+def levels_check(ctx, prop):
+    drv = ctx.build()
+    scen = models.fam_levels(ctx)
+    out = os.path.join(ctx.scratch, "lv")
+    os.makedirs(out, exist_ok=True)
+    sf = os.path.join(out, "scen.ndjson")
+    # the scenario universe is shared; with fp (filter answers) and duplicates removed
+    uniq = sorted(set(body for _, body in scen))
+    exported = len(uniq)
+    if ctx.quick:
+        # quick tier: every single-table scenario and a seeded eighth of the two-table ones
+        import zlib
+        uniq = [b for b in uniq if b.count("[{") <= 1 or zlib.crc32(b.encode()) % 8 == ctx.seed % 8]
+    open(sf, "w").write("\n".join(uniq) + "\n")
+    rc, o = ctx.drv(drv, ["lv", "-scenarios", sf, "-seed", ctx.seed, "-n", 150 if ctx.quick else 2000, "-out", out],
+                    timeout=3400)
+    if rc != 0:
+        hf = common.hard_failures(o)
+        if hf:
+            p = ctx.save_replay("%s-%s.txt" % (prop.lower(), hf[0][0]), [hf[0][1]])
+            ctx.violation(p, "%s in the level manager: %s" % hf[0], match={"kind": hf[0][0]})
+            return
+        raise Machinery("lv driver failed: " + o[-1500:])
+    summ = json.load(open(os.path.join(out, "summary.json")))
+    for e in summ.get("errors") or []:
+        p = ctx.save_replay("%s-error.txt" % prop.lower(), [e])
+        ctx.violation(p, "level manager call failed: " + e, match={"kind": "error"})
+    mine = [m for m in (summ.get("mismatches") or []) if m["property"] == prop]
+    for i, mm in enumerate(mine[:10]):
+        p = ctx.save_replay("%s-scenario-%d.json" % (prop.lower(), i), mm)
+        ctx.violation(p, "table-level lookup of %s deviates from Levels.tla in phase %s (alphabet %s, L0Target %s, ratio %s): "
+                         "real %s, spec %s; tables %s, watermark %d, %d entries per block" % (
+                             mm["query"], mm["phase"], mm["alphabet"], mm["l0"], mm["ratio"], mm["got"], mm["want"],
+                             json.dumps(mm["scenario"]["tables"]), mm["scenario"]["wm"], mm["scenario"]["bs"]),
+                      match={"kind": "scenario"})
+    for sm in (summ.get("samples") or [])[:2]:
+        ctx.sample(dict(tlc_scenario_replayed=dict(tables=sm["tables"], wm=sm["wm"], bs=sm["bs"])))
+    # random larger scenarios judged by TLC against the contract
+    tp = os.path.join(out, "traces.ndjson")
+    cfg = open(os.path.join(tlc.SPECS, "TraceLookup.cfg")).read()
+    acc, rej = ctx.validate_batch(tp, summ, validator=lambda pth, to: tlc.validate_trace("TraceLookup", cfg, pth, timeout=to))
+    for rj in rej:
+        i = rj["index"]
+        lines = ctx.trace_lines(tp, summ, i)
+        compacted = any('"ev":"Compact"' in ln for ln in lines[:rj["rel"]])
+        # before any compaction a wrong lookup is a lookup defect (C10); afterwards compaction changed an answer (C09)
+        owner = "C09" if compacted else "C10"
+        if owner != prop:
+            continue
+        rp = ctx.save_replay("%s-%s.lktrace.ndjson" % (prop.lower(), summ["metas"][i]["id"]), lines)
+        ctx.violation(rp, "the lookup contract rejects the recorded level-manager run %s at event %d: %s" % (
+            json.dumps(summ["metas"][i]), rj["rel"], json.dumps(rj["event"])), match={"kind": "trace"})
+    total = dict(traces=summ["replays"] + summ["traces"], events=summ["events"], accepted=acc + summ["replays"] - len(mine),
+                 nontrivial=summ["nontrivial"] + summ["traces"], tlc_scenarios_exported=exported,
+                 tlc_scenarios_replayed=summ["scenarios"],
+                 scenario_replays=summ["replays"])
+    std_cov(ctx, total, "every initial state of Levels.tla (all sequences of <= 2 flushed tables over 2 keys x 2 versions "
+                        "with tombstones, every watermark, 1-3 entries per block) is replayed on a real level manager "
+                        "(two key alphabets, several level geometries): lookups for every (key, ts) after flush, after "
+                        "recovery of the handles, after checkAndCompact (ts >= watermark) and after recovery again are "
+                        "compared with the spec's answers; plus random larger runs (<= 6 keys x 9 versions, cascaded "
+                        "compactions, changing watermark, three alphabets incl. 300-byte prefixes) judged by TLC against "
+                        "TraceLookup.tla; non-trivial = more than one table/entry")
+
+
+@check("C10")
+def c10(ctx):
+    levels_check(ctx, "C10")
+
+
+@check("C09")
+def c09(ctx):
+    levels_check(ctx, "C09")
+
+
 # --------------------------------------------------------------------------- C17
 @check("C17")
 def c17(ctx):
@@ -578,7 +654,7 @@ def c17(ctx):
         summ = json.load(open(os.path.join(out, "summary.json")))
         nrep += summ["replays"]
         ndist += summ["distinct_structures"]
-        for mm in summ["mismatches"]:
+        for mm in (summ.get("mismatches") or []):
             p = ctx.save_replay("c17-replay-%d-%d.json" % (bi, len(ctx.violations)), mm)
             ctx.violation(p, "the real skiplist deviates from Skiplist.tla after the operation sequence %s (alphabet %s): %s"
                           % (json.dumps(mm["replay"]["path"]), mm["alphabet"], mm["mismatch"]), match={"kind": "replay"})
@@ -623,6 +699,15 @@ def replay(ctx, path):
             print("  rejected at event %d: %s" % (rej[0]["rel"], json.dumps(rej[0]["event"])))
             return 1
         print("replay accepted (%d events)" % n)
+        return 0
+    if path.endswith(".lktrace.ndjson"):
+        cfg = open(os.path.join(tlc.SPECS, "TraceLookup.cfg")).read()
+        r = tlc.validate_trace("TraceLookup", cfg, path)
+        if not r["accepted"]:
+            print("VIOLATION property=%s replay=%s" % (ctx.id, path))
+            print("  rejected at event %d" % r["highwater"])
+            return 1
+        print("replay accepted")
         return 0
     if path.endswith(".smtrace.ndjson"):
         cfg = open(os.path.join(tlc.SPECS, "TraceSortedMap.cfg")).read()
